@@ -29,8 +29,34 @@ def _gen_script(rng, big):
             d[k] = d.get(k, 0) + v
         return (d, a[1] + b[1])
 
+    def est_add(meaning, i):
+        """what `poly + promise i` means for the harness's own bookkeeping (the promise stands for its variable)"""
+        d = dict(meaning[0])
+        d[i] = d.get(i, 0) + 1
+        return (d, meaning[1])
+
     for _ in range(rng.randint(4, 22)):
-        kind = rng.choice("VVLLAAAKMNSSQWWE")
+        kind = rng.choice("VVLLAAAKMNSSQWWEPPP")
+        if kind == "P":
+            # arithmetic on the promises themselves (BaseDeferred.__add__/__radd__/__sub__/__rsub__/__mul__/__rmul__/__neg__)
+            i, j, k = rng.randrange(nv), rng.randrange(nv), small()
+            form = rng.choice(["X", "PA", "PS", "PK", "KP", "KS", "RA"])
+            if form == "X":
+                push("X %d %d" % (i, k), ({i: k}, 0))
+            elif form == "PA":
+                push("PA %d %d" % (i, j), est_add(est_add(({}, 0), i), j))
+            elif form == "PS":
+                push("PS %d %d" % (i, j), est_add(({j: -1}, 0), i))
+            elif form == "PK":
+                push("PK %d %d" % (i, k), est_add(({}, k), i))
+            elif form == "KP":
+                push("KP %d %d" % (k, i), est_add(({}, k), i))
+            elif form == "KS":
+                push("KS %d %d" % (k, i), ({i: -1}, k))
+            elif nregs:
+                r = rng.randrange(nregs)
+                push("RA %d %d" % (r, i), est_add(sem[r], i))
+            continue
         if kind == "V" or nregs == 0:
             i = rng.randrange(nv)
             push("V %d" % i, ({i: 1}, 0))
@@ -175,6 +201,20 @@ def _run_impl(nv, ops):
             regs.append(regs[int(t[1])] * int(t[2]))
         elif t[0] == "N":
             regs.append(-regs[int(t[1])])
+        elif t[0] == "X":
+            regs.append(P[int(t[1])] * int(t[2]) if len(regs) % 2 else int(t[2]) * P[int(t[1])])
+        elif t[0] == "PA":
+            regs.append(P[int(t[1])] + P[int(t[2])])
+        elif t[0] == "PS":
+            regs.append(P[int(t[1])] - P[int(t[2])])
+        elif t[0] == "PK":
+            regs.append(P[int(t[1])] + int(t[2]))
+        elif t[0] == "KP":
+            regs.append(int(t[1]) + P[int(t[2])])
+        elif t[0] == "KS":
+            regs.append(int(t[1]) - P[int(t[2])])
+        elif t[0] == "RA":
+            regs.append(regs[int(t[1])] + P[int(t[2])])
         elif t[0] == "S":
             i = int(t[1])
             if t[2] == "int":
@@ -236,6 +276,7 @@ def poly_stream(ctx, rng, n, what="LinearPolynomial"):
         nv, ops, sem, known = (_gen_chain if rng.random() < 0.5 else _gen_script)(rng, big=True)
         script = " ; ".join(ops)
         ctx.case(("poly", script), nontrivial=any(o[0] in "SQ" for o in ops))
+        ctx.count("poly-scripts with arithmetic on bare promises", any(o.split()[0] in ("X", "PA", "PS", "PK", "KP", "KS", "RA") for o in ops))
         ctx.count("poly-scripts")
         inp = {"script": script, "variables": nv}
         try:
